@@ -373,6 +373,10 @@ type partialResult struct {
 	Capped     []string         `json:"capped"`
 	Added      map[string]int64 `json:"added"`
 	Info       []any            `json:"info"`
+	Rule       string           `json:"rule,omitempty"`
+	Assume     []string         `json:"assume,omitempty"`
+	Cov        map[string]any   `json:"cov,omitempty"`
+	Isolated   bool             `json:"isolated,omitempty"`
 }
 
 // IsChild reports whether this process is one shard of a sharded run.
@@ -397,14 +401,36 @@ func (c *Ctx) ShardInfo(v any) {
 
 // Sharded runs body(i) for i in [0,n) in n child processes (at most `conc` at a time) and merges their results.
 // Globals of the seams (virtual clock, registries) are per process, which is why shards are processes.
-func (c *Ctx) Sharded(n, conc int, body func(i int)) {
+func (c *Ctx) Sharded(n, conc int, body func(i int)) { c.sharded(n, conc, false, body) }
+
+// Isolated runs body in one child process, so that a crash no harness can recover from - a panic on a goroutine started
+// by the code under test, concurrent map writes, stack exhaustion - is reported as a violation ("the process keeps
+// running") instead of killing the check. Crumb names the case being executed for the report.
+func (c *Ctx) Isolated(body func()) {
+	if c.IsChild() || c.ReplayCase != nil {
+		body()
+		return
+	}
+	c.sharded(1, 1, true, func(int) { body() })
+}
+
+// Crumb records (in a child of Isolated/Sharded) the case about to be executed; the parent attaches it to a process-death report.
+func (c *Ctx) Crumb(cas any) {
+	if p := os.Getenv("VERIF_CRUMB"); p != "" && c.IsChild() {
+		if b, err := json.Marshal(cas); err == nil {
+			os.WriteFile(p, b, 0o644)
+		}
+	}
+}
+
+func (c *Ctx) sharded(n, conc int, force bool, body func(i int)) {
 	if c.IsChild() {
 		if c.shard < n {
 			body(c.shard)
 		}
 		return
 	}
-	if c.ReplayCase != nil || n == 1 {
+	if c.ReplayCase != nil || (n == 1 && !force) {
 		for i := 0; i < n; i++ {
 			body(i)
 		}
@@ -438,18 +464,37 @@ func (c *Ctx) Sharded(n, conc int, body func(i int)) {
 			pf := filepath.Join(dir, fmt.Sprintf("p%d.json", i))
 			args := []string{"-prop", c.Prop, "-tier", c.Tier, "-workers", fmt.Sprint(c.Workers), "-shard", fmt.Sprintf("%d/%d", i, n), "-partial", pf}
 			cmd := exec.Command(os.Args[0], args...)
-			cmd.Env = append(os.Environ(), fmt.Sprintf("VERIF_BUDGET_S=%d", int(time.Until(c.Deadline).Seconds())))
+			cmd.Env = append(os.Environ(), fmt.Sprintf("VERIF_BUDGET_S=%d", int(time.Until(c.Deadline).Seconds())), "VERIF_CRUMB="+pf+".crumb")
 			var stderr bytes.Buffer
 			cmd.Stderr = &stderr
 			runErr := cmd.Run()
 			b, rerr := os.ReadFile(pf)
 			var pr partialResult
 			if rerr != nil || json.Unmarshal(b, &pr) != nil {
-				tail := stderr.String()
+				full := stderr.String()
+				tail := full
 				if len(tail) > 3000 {
 					tail = tail[len(tail)-3000:]
 				}
-				c.Violation(c.Prop+":worker-died", fmt.Sprintf("shard %d/%d died without a result (%v): %s", i, n, runErr, tail), map[string]any{"shard": i, "of": n})
+				var cas any = map[string]any{"shard": i, "of": n}
+				if cb, err := os.ReadFile(pf + ".crumb"); err == nil {
+					cas = json.RawMessage(cb)
+				}
+				if j := strings.Index(full, "\npanic: "); j >= 0 || strings.HasPrefix(full, "panic: ") || strings.Contains(full, "fatal error: ") {
+					// an unrecoverable crash of the process (goroutine panic, fatal runtime error)
+					head := full
+					if j > 0 {
+						head = full[j+1:]
+					} else if k := strings.Index(full, "fatal error: "); k >= 0 && !strings.HasPrefix(full, "panic: ") {
+						head = full[k:]
+					}
+					if len(head) > 3000 {
+						head = head[:3000]
+					}
+					c.Violation(c.Prop+":process-died:"+PanicSite(head), fmt.Sprintf("the checking process was killed by a crash the caller cannot recover from (shard %d/%d, %v):\n%s", i, n, runErr, head), cas)
+					return
+				}
+				c.Violation(c.Prop+":worker-died", fmt.Sprintf("shard %d/%d died without a result (%v): %s", i, n, runErr, tail), cas)
 				return
 			}
 			c.merge(&pr)
@@ -462,6 +507,19 @@ func (c *Ctx) merge(p *partialResult) {
 	c.mu.Lock()
 	defer c.mu.Unlock()
 	c.evals += p.Evals
+	if c.rule == "" {
+		c.rule = p.Rule
+	}
+	if len(c.assume) == 0 {
+		c.assume = p.Assume
+	}
+	if p.Isolated {
+		for k, v := range p.Cov {
+			if _, ok := c.cov[k]; !ok {
+				c.cov[k] = v
+			}
+		}
+	}
 	for k, v := range p.Counters {
 		c.counters[k] += v
 	}
@@ -508,7 +566,10 @@ func (c *Ctx) Finish() int {
 	c.mu.Lock()
 	defer c.mu.Unlock()
 	if c.IsChild() {
-		pr := partialResult{Evals: c.evals, Counters: c.counters, Outcomes: c.outcomes, Samples: c.samples, ViolCount: c.violCount, Capped: c.capped, Added: c.added, Info: c.shardInfo}
+		pr := partialResult{Evals: c.evals, Counters: c.counters, Outcomes: c.outcomes, Samples: c.samples, ViolCount: c.violCount, Capped: c.capped, Added: c.added, Info: c.shardInfo, Rule: c.rule, Assume: c.assume}
+		if c.nshards == 1 {
+			pr.Cov, pr.Isolated = c.cov, true // the single child of Isolated carries the whole description
+		}
 		for h := range c.distinct {
 			pr.Distinct = append(pr.Distinct, h)
 		}
